@@ -232,7 +232,9 @@ class Sim:
                 t.sem.release()
         for t in self.tasks[1:]:
             if t.thread is not None:
-                t.thread.join(timeout=2.0)
+                t.thread.join(timeout=0.5)
+                if t.thread.is_alive():
+                    _async_raise(t.thread, Killed)
 
 
 # ---- shims ------------------------------------------------------------------------------------------
@@ -394,6 +396,12 @@ class _NS:
         self.__dict__.update(kw)
 
 
+def _async_raise(thread, exc):
+    import ctypes
+    if thread is not None and thread.ident is not None:
+        ctypes.pythonapi.PyThreadState_SetAsyncExc(ctypes.c_ulong(thread.ident), ctypes.py_object(exc))
+
+
 def vsleep(t):
     sim().block(lambda: False, t, "sleep")
 
@@ -446,14 +454,45 @@ def installed(s: Sim):
         _SIM = prev
 
 
-def run_sim(fn, seed=None, preempt=False, script=None, spin_limit=5000000, time_limit=20000.0):
-    """convenience: run fn(sim) under a fresh simulation; returns (result | exception, sim)"""
+class RealTimeLimit(Exception):
+    """the scenario did not finish within its real-time budget (a task loops without ever reaching a
+    switch point, or virtual time crawls): reported as non-termination"""
+
+
+def run_sim(fn, seed=None, preempt=False, script=None, spin_limit=5000000, time_limit=20000.0, real_limit=60.0):
+    """convenience: run fn(sim) under a fresh simulation; returns (result | exception, sim).
+    A real-time watchdog (SIGALRM, main thread only) aborts scenarios that never come back: the
+    runaway task threads get an asynchronous `Killed` and the main task a `RealTimeLimit`."""
+    import signal
     s = Sim(seed=seed, preempt=preempt, spin_limit=spin_limit, time_limit=time_limit)
     if script is not None:
         s.script = list(script)
-    with installed(s):
-        try:
-            r = s.run(lambda: fn(s))
-        except BaseException as e:  # noqa: BLE001
-            r = e
+    use_alarm = real_limit and _th.current_thread() is _th.main_thread()
+    fired = {"v": False}
+
+    def on_alarm(signum, frame):
+        fired["v"] = True
+        s.killed = True
+        running = [t for t in s.tasks[1:] if t.state != "done"]
+        for t in running:
+            _async_raise(t.thread, Killed)
+            t.sem.release()
+        raise RealTimeLimit(f"no result after {real_limit} s of real time at virtual t={s.now:.2f}; tasks: {s.tasks!r}")
+
+    old = None
+    if use_alarm:
+        old = signal.signal(signal.SIGALRM, on_alarm)
+        signal.setitimer(signal.ITIMER_REAL, real_limit)
+    try:
+        with installed(s):
+            try:
+                r = s.run(lambda: fn(s))
+            except BaseException as e:  # noqa: BLE001
+                r = e
+    finally:
+        if use_alarm:
+            signal.setitimer(signal.ITIMER_REAL, 0)
+            signal.signal(signal.SIGALRM, old)
+    if fired["v"] and not isinstance(r, RealTimeLimit):
+        r = RealTimeLimit(f"real-time budget of {real_limit} s exceeded")
     return r, s
